@@ -288,6 +288,7 @@ func TestVP_C10_Server(t *testing.T) {
 type vpC10Resp struct {
 	Proto     string
 	ConnLines []string
+	Mutate    bool // streaming callers only: the application edits the response's Connection header before closing the body stream
 }
 
 func vpC10RespSaysClose(r vpC10Resp) bool {
@@ -300,7 +301,9 @@ func vpC10RespSaysClose(r vpC10Resp) bool {
 // vpC10RunClient issues len(script) sequential GETs through a HostClient (MaxConns 1) whose Dial
 // hands out in-memory connections to a harness origin. The k-th request overall is answered with
 // script[k]. Returns "" or a description of a reuse after close.
-func vpC10RunClient(script []vpC10Resp) string {
+func vpC10RunClient(script []vpC10Resp) string { return vpC10RunClientMode(script, false) }
+
+func vpC10RunClientMode(script []vpC10Resp, stream bool) string {
 	var mu sync.Mutex
 	type connLog struct {
 		reqs       int
@@ -312,8 +315,9 @@ func vpC10RunClient(script []vpC10Resp) string {
 	var wg sync.WaitGroup
 	var conns []net.Conn
 	hc := &HostClient{
-		Addr:     "origin:80",
-		MaxConns: 1,
+		Addr:               "origin:80",
+		MaxConns:           1,
+		StreamResponseBody: stream,
 		Dial: func(addr string) (net.Conn, error) {
 			c, srv := net.Pipe()
 			l := &connLog{}
@@ -370,6 +374,16 @@ func vpC10RunClient(script []vpC10Resp) string {
 		req.SetRequestURI(fmt.Sprintf("http://origin/q%d", i))
 		if err := hc.DoTimeout(req, resp, 10*time.Second); err != nil {
 			errs++
+		} else if stream {
+			if script[i].Mutate {
+				// what a proxy does before relaying the response
+				resp.Header.Del("Connection")
+				resp.Header.ResetConnectionClose()
+			}
+			if bs := resp.BodyStream(); bs != nil {
+				io.Copy(io.Discard, bs)
+			}
+			resp.CloseBodyStream()
 		}
 		ReleaseRequest(req)
 		ReleaseResponse(resp)
@@ -418,8 +432,14 @@ func TestVP_C10_Client(t *testing.T) {
 			}
 			script = append(script, r)
 		}
-		msg := vpC10RunClient(script)
-		vpCase(fmt.Sprintf("client/closes=%d", min(closes, 3)), closes >= 1, fmt.Sprint(script), func() string { return fmt.Sprintf("%+v", script) })
+		stream := rapid.Bool().Draw(t, "stream")
+		if stream {
+			for i := range script {
+				script[i].Mutate = rapid.Bool().Draw(t, "mutate")
+			}
+		}
+		msg := vpC10RunClientMode(script, stream)
+		vpCase(fmt.Sprintf("client/stream=%v/closes=%d", stream, min(closes, 3)), closes >= 1, fmt.Sprint(stream, script), func() string { return fmt.Sprintf("stream=%v %+v", stream, script) })
 		if msg != "" {
 			t.Fatalf("C10 violation (client): %s\nscript=%+v", msg, script)
 		}
